@@ -39,6 +39,17 @@ BLOCKS_B.update({"gdecl": ["typedef int[0,5] Small;", "Small g1 = 1; int g2;", "
                            "int f(int q) { if (q > 2) { return 1; } return q + g1; }"],
                  "guard": ["forall (k : int[0,1]) g1 + k >= 0"], "assign": ["g2 = (g1 > 0 ? f(s) : l1)"],
                  "inv": ["lx <= g1 + 10"], "system": ["P1 = T(1, g2);", "P2 = T(2, g2);", "system P1, P2;"]})
+# model C: the declaring constructs beyond plain variables (records, scalar sets, arrays over typedefs, channel priorities,
+# before/after update, system-section declarations, progress measures, gantt chart)
+BLOCKS_C = dict(BLOCKS_A)
+BLOCKS_C.update({"gdecl": ["typedef struct { int f; bool fl[2]; } rec_t;", "rec_t r1 = { 1, { true, false } };", "typedef scalar[3] sid_t;",
+                           "int g1 = 1; int g2; clock gx; chan c; broadcast chan bc;", "int bysid[sid_t];", "chan priority c < bc,", "  default;",
+                           "void bu() { g2 = r1.f; }", "before_update { bu(),", "  g2 = 2 }", "after_update { g1 = g2 + 1 }",
+                           "int f(int q) {", "  for (i : sid_t) { bysid[i] = q; }", "  return q + g1;", "}"],
+                 "ldecl": ["int l1 = 3;", "clock lx;", "typedef struct { int a; } lr_t;", "lr_t lr;", "int lf(int q) { return q + lr.a; }"],
+                 "guard": ["g1 == 1 &&", "  lf(l1) > r1.f && s >= 0"],
+                 "system": ["const int sk = 1;", "P1 = T(sk, g2);", "P2 = T(2, g1);", "system P1, P2;",
+                            "progress { g1; g2 +", "  1; }", "gantt { G1 : g1 > 0 -> 1;", "  G2(k : int[0,1]) : g2 == k -> k; }"]})
 NON_DECLARING = {"inv", "rate", "guard", "sync", "assign", "guard2", "assign2"}
 XPATH = {"gdecl": "/nta/declaration", "params": "/nta/template[1]/parameter", "ldecl": "/nta/template[1]/declaration",
          "inv": "/nta/template[1]/location[1]/label[1]", "rate": "/nta/template[1]/location[1]/label[2]", "select": "/nta/template[1]/transition[1]/label[1]",
@@ -185,7 +196,7 @@ def check_positions(root, diags, part, fid, key, rp, what):
 
 def run_shard(arg):
     model_id, block, variants = arg
-    blocks = BLOCKS_A if model_id == "A" else BLOCKS_B
+    blocks = {"A": BLOCKS_A, "B": BLOCKS_B, "C": BLOCKS_C}[model_id]
     part = engine.Part()
     w = engine.worker("fast")
     items = []
@@ -240,7 +251,12 @@ def run_shard(arg):
                                (key, other[0]["msg"], other[0]["path"]), rp)
                 continue
         if fid == "undeclared-identifier":
-            unk = [e for e in here if MARK in e["msg"]]
+            # the substituted name in member position (r1.NAME) is an unknown *member*: the library reports the member access
+            # `r1.NAME` as a whole, which is the text that caused it; exact coverage is demanded for unknown identifiers only
+            unk = [e for e in here if MARK in e["msg"] and "has_no_member" not in e["msg"]]
+            if not unk and any("has_no_member" in e["msg"] for e in here):
+                part.outcome("positions-ok/unknown-member")
+                continue
             if unk:
                 text = (resolve(root, XP)[0].text or "").split("\n")
                 ok = False
@@ -270,16 +286,17 @@ def main():
                         "synchronisation, update, second edge's guard and update, system) x faults {undeclared identifier, clock for "
                         "operand, token deleted, bracket deleted, stray ) ] }, semicolon deleted, side effect inserted, unterminated "
                         "comment} at every token position x layouts %s. distinct = (model, block, fault, token, layout)."
-                        % ("A, B", variants))
+                        % ("A, B; C with records, scalar sets, channel priorities, before/after update, system-section declarations, progress "
+                           "measures and a gantt chart in its declaring blocks", variants))
     # the base models themselves must be accepted, in every layout
     w = engine.worker("fast")
-    for mid, blocks in (("A", BLOCKS_A), ("B", BLOCKS_B)):
+    for mid, blocks in (("A", BLOCKS_A), ("B", BLOCKS_B), ("C", BLOCKS_C)):
         for v in LAYOUTS_T:
             r = X.run_docs(w, [render(blocks, v)], want=["noinv"])[0]
             if not X.accepted(r):
                 print("C06 generator bug: base model %s layout %s is not accepted: %s" % (mid, v, X.msgs(r)[:3]))
                 sys.exit(2)
-    shards = [(mid, b, variants) for mid in ["A", "B"] for b in BLOCKS_A]
+    shards = [(mid, b, variants) for mid in ["A", "B"] for b in BLOCKS_A] + [("C", b, variants) for b in ("gdecl", "ldecl", "guard", "system")]
     for res in engine.pmap(run_shard, shards):
         rep.merge(res)
     rep.assumptions = ["Python's ElementTree over the same bytes is the independent DOM; lines are the '\\n'-separated lines of the "
